@@ -3,27 +3,106 @@ C20T — `_strip_port` and `host_is_trusted` of `werkzeug.sansio.utils` *as rege
 source* by `tools/py2lean.py` (`Gen/PyFns_Host.lean`, rewritten on every check run) are equal, for
 all inputs, to the hand-written model functions of `Model/Debugger.lean` that the C20 theorems are
 about. The IDNA codec stays an opaque function parameter on both sides.
-Property theorems only (helper lemmas live in Lemmas/PyFns_Host.lean).
+Property theorems only (helper lemmas live in Lemmas/PyFns_Host.lean, Lemmas/PyFns_Prelude.lean).
 -/
+import WzVerif.Gen.PyFns_Host
 import WzVerif.Lemmas.PyFns_Host
-import WzVerif.Props.C20
+import WzVerif.Lemmas.Debugger
 namespace Wz.Props.C20T
-open Wz
+open Wz Wz.Pre Wz.PyFnsHost
 
 /-- `_strip_port`, as translated from the current source (`startswith` / `find` / two slices /
 `partition`), returns exactly what the model's `stripPort` returns, for every host text. -/
 theorem strip_port_eq (host : List Char) :
-    Gen.PyFns_Host.strip_port host = Dbg.stripPort host :=
-  PyFnsHost.strip_port_eq host
+    Gen.PyFns_Host.strip_port host = Dbg.stripPort host := by
+  cases host with
+  | nil =>
+    simp [Gen.PyFns_Host.strip_port, startswith_singleton_nil, partition_singleton_fst,
+      Dbg.stripPort, Dbg.beforeColon]
+  | cons x rest =>
+    by_cases hx : x = '['
+    · subst hx
+      rcases split_at_first ']' rest with ⟨h1, _, h3⟩ | ⟨pre, post, h1, h2, h3, h4⟩
+      · -- no closing bracket: `find` answers -1
+        have hm : ']' ∉ '[' :: rest := by simp [h1]
+        simp [Gen.PyFns_Host.strip_port, startswith_singleton_cons,
+          find_singleton_not_mem _ _ hm, Dbg.stripPort, h3]
+      · -- rest = pre ++ ']' :: post: `end` = |pre| + 1
+        have hf : find ('[' :: rest) [']'] = ((pre.length + 1 : Nat) : Int) := by
+          have := find_singleton_append ']' ('[' :: pre) post (by simp [h2])
+          rw [h1]; simpa using this
+        have e1 : (((pre.length + 1 : Nat) : Int) + 1) = ((pre.length + 2 : Nat) : Int) := by omega
+        have e2 : (((pre.length + 1 : Nat) : Int) + 2) = ((pre.length + 3 : Nat) : Int) := by omega
+        have hs1 : slice ('[' :: rest) (some ((pre.length + 2 : Nat) : Int))
+            (some ((pre.length + 3 : Nat) : Int)) = post.take 1 := by
+          rw [slice_nat, h1]
+          simp [List.take_append, List.drop_append]
+        have hs2 : slice ('[' :: rest) none (some ((pre.length + 2 : Nat) : Int))
+            = '[' :: pre ++ [']'] := by
+          rw [slice_none_nat, h1]
+          have : List.take (pre.length + 1) pre = pre := List.take_of_length_le (by omega)
+          simp [List.take_append, this]
+        have hne : ¬ ((pre.length : Int) + 1 = -1) := by omega
+        simp only [Gen.PyFns_Host.strip_port, startswith_singleton_cons, hf, e1, e2, hs1, hs2,
+          Dbg.stripPort, h3, h4]
+        cases post with
+        | nil => simp [h1]
+        | cons y post' =>
+          by_cases hy : y = ':'
+          · subst hy; simp [hne]
+          · simp [hy]
+    · have hx' : ('[' == x) = false := by simpa using fun h => hx h.symm
+      simp [Gen.PyFns_Host.strip_port, startswith_singleton_cons, hx', partition_singleton_fst,
+        stripPort_other x rest hx, Dbg.beforeColon]
 
-/-- `host_is_trusted`, as translated from the current source (truthiness test, the two
-`try … except UnicodeError: return False` blocks, the loop over the trusted list with its
-dot-prefix handling and early returns), computes exactly the model's `hostIsTrusted`, for every
-IDNA function, every Host value (including `None` and `""`) and every trusted list. -/
+/-- The `for ref in trusted_list` loop of `host_is_trusted`, as translated from the current source
+(dot-prefix handling, `try … except UnicodeError: return False`, the exact / suffix comparison and
+the early `return True`), answers what the model's `matchRefs` answers, for every IDNA function,
+host name and trusted list (`loopVal`: falling out of the loop means `False`). -/
+theorem host_is_trusted_loop_eq (idna : Dbg.Idna) (hn : List Char) (refs : List (List Char)) :
+    loopVal (Gen.PyFns_Host.host_is_trusted.loop1 idna hn refs) = Dbg.matchRefs idna hn refs := by
+  induction refs with
+  | nil => rfl
+  | cons ref rest ih =>
+    have hslice : slice ref (some 1) none = ref.drop 1 := slice_nat_none ref 1
+    unfold Gen.PyFns_Host.host_is_trusted.loop1 Dbg.matchRefs
+    cases ref with
+    | nil =>
+      simp only [startswith_singleton_nil, refParts_nil, strip_port_eq]
+      cases idna (Dbg.stripPort []) <;> simp [loopVal_ite, ih, Dbg.endsWith, endswith]
+    | cons x t =>
+      by_cases hx : x = '.'
+      · subst hx
+        simp only [startswith_singleton_cons, refParts_dot, strip_port_eq, hslice,
+          List.drop_succ_cons, List.drop_zero]
+        cases idna (Dbg.stripPort t) <;> simp [loopVal_ite, ih, Dbg.endsWith, endswith]
+      · have hx' : ('.' == x) = false := by simpa using fun h => hx h.symm
+        simp only [startswith_singleton_cons, hx', refParts_other x t hx, strip_port_eq]
+        cases idna (Dbg.stripPort (x :: t)) <;> simp [loopVal_ite, ih, Dbg.endsWith, endswith]
+
+/-- `host_is_trusted`, as translated from the current source (truthiness test, the
+`try … except UnicodeError: return False` around the host's IDNA encoding, the loop over the trusted
+list), computes exactly the model's `hostIsTrusted`, for every IDNA function, every Host value
+(including `None` and `""`) and every trusted list. -/
 theorem host_is_trusted_eq (idna : Dbg.Idna) (host : Option (List Char))
     (trusted : List (List Char)) :
-    Gen.PyFns_Host.host_is_trusted idna host trusted = Dbg.hostIsTrusted idna host trusted :=
-  PyFnsHost.host_is_trusted_eq idna host trusted
+    Gen.PyFns_Host.host_is_trusted idna host trusted = Dbg.hostIsTrusted idna host trusted := by
+  unfold Gen.PyFns_Host.host_is_trusted Dbg.hostIsTrusted
+  cases host with
+  | none => rfl
+  | some h =>
+    cases h with
+    | nil => rfl
+    | cons x t =>
+      simp only [strip_port_eq, List.isEmpty_cons]
+      cases idna (Dbg.stripPort (x :: t)) with
+      | error e => simp
+      | ok hn =>
+        have := host_is_trusted_loop_eq idna hn trusted
+        simp only [Bool.false_eq_true, ↓reduceIte]
+        cases hl : Gen.PyFns_Host.host_is_trusted.loop1 idna hn trusted with
+        | ret r => rw [hl] at this; simpa using this
+        | fall u => cases u; rw [hl] at this; simpa using this
 
 /-- Soundness of `host_is_trusted` (C20 `host_trusted_sound`) restated on the translated
 definition: whatever the regenerated code accepts is a non-empty Host whose port-stripped name
@@ -34,8 +113,17 @@ theorem host_trusted_sound_translated (idna : Dbg.Idna) (host : Option (List Cha
     ∃ hst hn, host = some hst ∧ hst ≠ [] ∧
       idna (Gen.PyFns_Host.strip_port hst) = .ok hn ∧ ∃ ref ∈ trusted, Dbg.RefMatches idna hn ref := by
   rw [host_is_trusted_eq] at h
-  obtain ⟨hst, hn, h1, h2, h3, h4⟩ := Wz.Props.C20.host_trusted_sound idna host trusted h
-  exact ⟨hst, hn, h1, h2, by rw [strip_port_eq]; exact h3, h4⟩
+  unfold Dbg.hostIsTrusted at h
+  split at h
+  · cases h
+  · cases h
+  · rename_i hst hne
+    cases hi : idna (Dbg.stripPort hst) with
+    | error e => simp [hi] at h
+    | ok hn =>
+      simp only [hi] at h
+      exact ⟨hst, hn, rfl, fun he => hne (by rw [he]), by rw [strip_port_eq]; exact hi,
+        Dbg.matchRefs_sound idna hn trusted h⟩
 
 example : Gen.PyFns_Host.host_is_trusted Dbg.asciiIdna (some "a.example.org:80".toList)
     [".example.org".toList] = true := by decide
